@@ -1,3 +1,4 @@
+import PV.Model.QueuesLate
 import PV.Model.Queues
 import PV.Model.RingReserve
 import PV.Lemmas.Queues.Ring2
@@ -164,5 +165,30 @@ example : ((PCQ.runTrace ⟨1, [[(0, 0), (0, 1)]], [2]⟩ (PCQ.init ⟨1, [[(0, 
     [.pWait 0, .pEnter 0, .pLeave 0, .pPost 0, .cWait 0, .cEnter 0, .cLeave 0, .cPost 0,
      .pWait 0, .pEnter 0, .pLeave 0, .pPost 0, .cWait 0, .cEnter 0, .cLeave 0, .cPost 0]).map (·.reads)) = some [(0, 0), (0, 1)] := by
   decide
+
+/-! Why `Consume` copies the value INSIDE the locked block.  `PV.Queues.PCQLate` is the same system with the copy moved after the
+    unlock ("the slot is not recycled until empty_ is posted").  That sentence is true for one consumer only: -/
+section LateCopy
+open PV.Queues PV.Queues.PCQ
+
+def lateParams : Params := { cap := 2, items := [[(0, 1), (0, 2), (0, 3)]], quotas := [2, 1] }
+
+/-- the producer fills both slots; consumer 0 claims slot 0 but has not copied yet; consumer 1 claims slot 1, copies, posts;
+    the producer, woken by that post, writes slot 0; consumer 0 copies -/
+def lateTrace : List PCQLate.Label :=
+  [.prod (.pWait 0), .prod (.pEnter 0), .prod (.pLeave 0), .prod (.pPost 0),
+   .prod (.pWait 0), .prod (.pEnter 0), .prod (.pLeave 0), .prod (.pPost 0),
+   .cWait 0, .cClaim 0, .cWait 1, .cClaim 1, .cCopy 1, .cPost 1,
+   .prod (.pWait 0), .prod (.pEnter 0), .prod (.pLeave 0), .prod (.pPost 0), .cCopy 0]
+
+/-- with the copy outside the lock, capacity 2, one producer and two consumers there is a schedule on which a claimed slot is
+    overwritten before it was copied: items 1, 2, 3 are written, items 2 and 3 are read, item 1 is lost (contrast `pcq_slot_safety`
+    and `pcq_fifo`, which hold for every schedule of the real system). -/
+theorem late_copy_unsafe_with_two_consumers :
+    ∃ tr, (PCQLate.runTrace lateParams (PCQLate.init lateParams) tr).map (fun s => (s.base.bad, s.base.reads, s.base.writes))
+      = some (true, [(0, 2), (0, 3)], [(0, 1), (0, 2), (0, 3)]) :=
+  ⟨lateTrace, by decide +kernel⟩
+
+end LateCopy
 
 end PV.Props.C16
